@@ -84,6 +84,9 @@ class Bounded:
         return (True, "")
 
 
+ALSO_PORTABLE = True
+
+
 def run(ctx, chk):
     prog = ctx.prog()
     cg = prog.callgraph()
